@@ -123,6 +123,8 @@ def latex_name(display_latex: str) -> str:
 def float_fraction(f) -> Fraction:
     """A Float leaf denotes the decimal it carries at its declared precision: the exact binary value rounded
     (half-even, exact rational arithmetic) to `dps` significant decimal digits (15 by default)."""
+    if abs(f._mpf_[2] + f._mpf_[3]) > 4000:  # pylint: disable=protected-access
+        raise Unreadable("float with an astronomically large exponent")
     r = sympy.Rational(f)
     fr = Fraction(int(r.p), int(r.q))
     if fr == 0:
